@@ -178,6 +178,8 @@ type AdminOp struct {
 	Svc   int    `json:"svc"`
 	Route int    `json:"route,omitempty"`
 	Plain int    `json:"plain,omitempty"`
+	N     int    `json:"n,omitempty"`     // burst: so many requests to as many different URLs
+	Focus int    `json:"focus,omitempty"` // burst: 0 = URLs of all services, k = of service k-1 only
 }
 
 func (o AdminOp) String() string {
@@ -186,6 +188,8 @@ func (o AdminOp) String() string {
 		return fmt.Sprintf("%s(s%d)", o.Kind, o.Svc)
 	case "route", "unroute":
 		return fmt.Sprintf("%s(s%d,r%d)", o.Kind, o.Svc, o.Route)
+	case "burst":
+		return fmt.Sprintf("burst(%d,focus=%d)", o.N, o.Focus-1)
 	}
 	return fmt.Sprintf("%s(p%d)", o.Kind, o.Plain)
 }
@@ -230,6 +234,8 @@ func (s RegState) Apply(o AdminOp) RegState {
 		n.Plain = append(n.Plain, o.Plain)
 	case "handle-dup":
 		// rejected (Handle panics on a pattern that is taken): no change
+	case "burst":
+		// requests are no registration operation: no change
 	}
 	return n
 }
@@ -254,6 +260,49 @@ type World struct {
 
 	C    *restful.Container
 	Live map[int]*restful.WebService
+
+	// BurstProbes are answered once at the start of every burst (see Burst).
+	BurstProbes []Probe
+	burstSeq    int
+}
+
+// Burst is the long-lived server between two registration changes: the container answers the scenario's
+// probes once and then n requests to n different URLs (every template of the scenario instantiated with
+// values never used before, registered at the moment or not). Nothing is judged here; what the requests
+// leave behind - caches keyed by path that fill and rotate, counters, pools - must not show in any
+// later answer. Runs on the caller's task (schedule points at the lock hooks only).
+func (w *World) Burst(n int, focus int) {
+	for i, p := range w.BurstProbes {
+		ServeProbe(w.C, i%2, p, nil, 0)
+	}
+	type tm struct{ m, full string }
+	var ts []tm
+	for _, sp := range w.Svcs {
+		if focus >= 0 && sp.ID != focus {
+			continue
+		}
+		for _, r := range sp.Routes {
+			ts = append(ts, tm{r.Method, FullPath(sp.Root, r.Path)})
+		}
+	}
+	if len(ts) == 0 {
+		return
+	}
+	for k := 0; k < n; k++ {
+		t := ts[k%len(ts)]
+		w.burstSeq++
+		p := Probe{Method: t.m, Path: instantiateN(t.full, w.burstSeq)}
+		if w.Options && k%3 == 2 {
+			p.Method = "OPTIONS"
+		}
+		if k%5 == 4 {
+			p.Accept = fmt.Sprintf("application/json; v=%d, */*;q=0.1", w.burstSeq)
+		}
+		ServeProbe(w.C, k%2, p, nil, 0)
+	}
+	if t := sim.Cur(); t != nil {
+		t.Count("reach:burst-of-distinct-urls")
+	}
 }
 
 type PlainSpec struct {
@@ -372,6 +421,8 @@ func (w *World) Do(o AdminOp) {
 		w.C.Handle(w.Plains[o.Plain].Pattern, plainHandler(o.Plain))
 	case "handlef":
 		w.C.HandleWithFilter(w.Plains[o.Plain].Pattern, plainHandler(o.Plain))
+	case "burst":
+		w.Burst(o.N, o.Focus-1)
 	case "handle-dup":
 		func() {
 			defer func() {
@@ -522,4 +573,50 @@ func instantiate(template string, variant int) string {
 		}
 	}
 	return "/" + strings.Join(out, "/")
+}
+
+// instantiateN fills a template with values that depend on n alone: different n, different URL
+// (templates without any variable get a query string).
+func instantiateN(template string, n int) string {
+	if template == "" || template == "/" {
+		return fmt.Sprintf("/?n=%d", n)
+	}
+	letters := func(k int) string {
+		out := ""
+		for k > 0 || out == "" {
+			out += string(rune('a' + k%26))
+			k /= 26
+		}
+		return "n" + out
+	}
+	var out []string
+	vars := 0
+	for _, seg := range strings.Split(strings.Trim(template, "/"), "/") {
+		switch {
+		case strings.HasPrefix(seg, "{") && strings.Contains(seg, "}:"):
+			out = append(out, fmt.Sprintf("n%d", n)+seg[strings.Index(seg, "}:")+1:])
+			vars++
+		case strings.HasPrefix(seg, "{") && strings.HasSuffix(seg, ":*}"):
+			out = append(out, fmt.Sprintf("n%d/z", n))
+			vars++
+		case strings.HasPrefix(seg, "{") && strings.Contains(seg, ":[0-9]+"):
+			out = append(out, fmt.Sprint(1000+n))
+			vars++
+		case strings.HasPrefix(seg, "{") && strings.Contains(seg, ":[a-z]+"):
+			out = append(out, letters(n))
+			vars++
+		case strings.HasPrefix(seg, "{"):
+			out = append(out, fmt.Sprintf("n%d", n))
+			vars++
+		default:
+			out = append(out, seg)
+		}
+	}
+	p := "/" + strings.Join(out, "/")
+	if vars == 0 && n%2 == 0 {
+		p += fmt.Sprintf("/n%d", n) // another path below the same root (no route: the service is asked all the same)
+	} else if vars == 0 {
+		p += fmt.Sprintf("?n=%d", n)
+	}
+	return p
 }
